@@ -238,7 +238,7 @@ class Lexer:
 
         escape = self._source[start : self._position]
 
-        if len(escape) != 4:
+        if len(escape) != 4 or any(c not in hexdigits for c in escape):
             raise InvalidEscapeSequence(
                 "\\u%s" % escape, start - 1, self._source
             )
